@@ -6,10 +6,10 @@ ROOT = os.path.dirname(os.path.dirname(os.path.abspath(__file__)))
 # id -> (engine, level, technique, text, note, design_ref)
 CHECKS = {
  "C01": ("product-machine", "model_checking", "explicit-state BFS over (TypeState x runtime state x event) on the real compiler/runtime; invariant on every transition",
-         "Breadth-first search over all statement sequences (205-statement alphabet to depth 2, 44-statement core alphabet to depth 3; thorough: depth 4) x 6 external-type configurations x conforming events. Each transition compiles one statement with compile_with_state under the current TypeState and runs it on the carried RuntimeState; the whole path is also compiled in one piece and run from the initial event. On every transition: result in reported kind (or returns kind), final event/metadata in reported external kinds, every bound variable in its reported kind.",
+         "Breadth-first search over all statement sequences (~340-statement alphabet to depth 2, 44-statement core alphabet to depth 3; thorough: depth 4) x 6 external-type configurations x conforming events. Each transition compiles one statement with compile_with_state under the current TypeState and runs it on the carried RuntimeState; the whole path is also compiled in one piece and run from the initial event. On every transition: result in reported kind (or returns kind), final event/metadata in reported external kinds, every bound variable in its reported kind. Plus the operator typing grid (props/opgrid.rs): `.r = .a OP .b` for 13 operators (and `!`, `if`, template strings) under schemas declaring every singleton / two-member union of 8 kinds; every accepted program is run on all representative value pairs and its result and event must be in the reported kinds.",
          "Independent membership predicate (harness/src/model/member.rs) over Kind's public accessors; hook H1 exposes LocalEnv bindings read-only. Programs outside the alphabet are not covered; stdlib type_defs are C03's job.", "3.1"),
  "C02": ("product-machine", "model_checking", "explicit-state BFS on the real compiler/runtime (no cut after state corruption); outcome invariant on every transition",
-         "Same exploration as C01 but continued past corrupted type states: every accepted statement path without `f!(..)`/`abort` must end Ok/Return on every conforming event (NaN error text excepted), ProgramInfo.fallible==false implies no runtime error and abortable==false implies no abort, on the step-wise and the whole-program compilation.",
+         "Same exploration as C01 but continued past corrupted type states: every accepted statement path without `f!(..)`/`abort` must end Ok/Return on every conforming event (NaN error text excepted), ProgramInfo.fallible==false implies no runtime error and abortable==false implies no abort, on the step-wise and the whole-program compilation. Plus the operator typing grid (props/opgrid.rs): a program `.r = .a OP .b` accepted without error handling under any declared operand kinds must not fail on any value of those kinds.",
          "NaN exception recognised by ValueError::NanFloat's own text. Attribution inside programs that also use `!` (hook H2) is not built: such programs are only checked against ProgramInfo.", "3.1"),
  "C03": ("stdlib-sweep", "exploration", "bounded-exhaustive argument-tuple enumeration per stdlib function in sacrificial worker processes",
          "For each of 188 stdlib functions: full cross product of per-parameter alphabets (enum variants + literals harvested from the function's own examples + per-kind edge values, shrunk longest-first to a per-function cap), optional parameters one at a time, closure bodies; literal and runtime-typed argument modes. Result must be in the call's static kind and in return_kind(); a call compiled without `!` must not error; a wrong-typed runtime argument must error.",
